@@ -24,98 +24,109 @@ Theorem C07_tie_model_algebra_is_tables :
   (∀ k, k ≠ "+/-" → pv_binop k = bin_of_tables pv_ops k) ∧ (∀ k, pv_unop k = un_of_tables pv_ops k).
 Proof. exact (conj pv_binop_is_tables pv_unop_is_tables). Qed.
 
-(** ** The parser round trip (full statement, every expression, every style, no size bound) *)
-Theorem C07_parse_render s e :
+(** ** The two switches.  [Eval.go_p pa pe] mirrors [_build_eval_tree] for either shape of the
+    "(" branch ([pa = true]: as first found, F16) and of the test that ends a pending operator
+    ([pe = true]: as first found, F41); T2 reads the shapes from the source and [Eval.build] is
+    [build_p] at the generated values.  Theorems are stated for every value of the switches where
+    they hold for every value, and for the repaired value where the defect refutes them. *)
+Theorem C07_build_is_generated toks :
+  Eval.build EvalTables.op_priority toks
+  = build_p EvalTables.paren_juxt_any_priority EvalTables.pow_exempt_any_priority EvalTables.op_priority toks.
+Proof. reflexivity. Qed.
+
+(** ** The parser round trip (full statement, every expression, every style, no size bound;
+    for all four combinations of the switches, hence for the code as it is now) *)
+Theorem C07_parse_render pa pe s e :
   legal e = true →
-  build EvalTables.op_priority (render s e ++ [TEnd]) = Ok (tree_of (strip e)).
-Proof. rewrite op_priority_tie. exact (parse_render s e). Qed.
+  build_p pa pe EvalTables.op_priority (render s e ++ [TEnd]) = Ok (tree_of (strip e)).
+Proof. rewrite op_priority_tie. exact (parse_render pa pe s e). Qed.
+Theorem C07_parse_render_current s e :
+  legal e = true →
+  Eval.build EvalTables.op_priority (render s e ++ [TEnd]) = Ok (tree_of (strip e)).
+Proof. exact (C07_parse_render _ _ s e). Qed.
 (** real token streams end with NEWLINE ENDMARKER *)
-Theorem C07_parse_render_newline s e :
+Theorem C07_parse_render_newline pa pe s e :
   legal e = true →
-  build EvalTables.op_priority (render s e ++ [TOther; TEnd]) = Ok (tree_of (strip e)).
-Proof. rewrite op_priority_tie. exact (parse_render_newline s e). Qed.
+  build_p pa pe EvalTables.op_priority (render s e ++ [TOther; TEnd]) = Ok (tree_of (strip e)).
+Proof. rewrite op_priority_tie. exact (parse_render_newline pa pe s e). Qed.
 (** the same for every derivation of Python's grammar, i.e. with arbitrary redundant groups *)
-Theorem C07_parse_render_any_parentheses e ending :
+Theorem C07_parse_render_any_parentheses pa pe e ending :
   wfp e = true → ending = [TEnd] ∨ ending = [TOther; TEnd] →
-  build EvalTables.op_priority (render_cst e ++ ending) = Ok (tree_of (strip e)).
-Proof. rewrite op_priority_tie, tree_of_strip. exact (parse_render_cst e ending). Qed.
+  build_p pa pe EvalTables.op_priority (render_cst e ++ ending) = Ok (tree_of (strip e)).
+Proof. rewrite op_priority_tie, tree_of_strip. exact (parse_render_cst pa pe e ending). Qed.
 (** [render] inserts exactly the parentheses Python needs, and nothing else changes *)
 Theorem C07_render_is_python_grammar s e :
   legal e = true → wfp (parenthesize s e) = true ∧ strip (parenthesize s e) = strip e.
 Proof. intros H. exact (conj (parenthesize_wfp s e H) (strip_parenthesize s e)). Qed.
 
 (** ** Corollaries *)
-Theorem C07_pow_right_assoc o1 o2 a b c :
+Theorem C07_pow_right_assoc pa pe o1 o2 a b c :
   is_pow o1 = true → is_pow o2 = true → primary a → primary b → wfp c = true → 2 ≤ lvl c →
-  build Eval.op_priority (render_cst a ++ [TOp (opstr o1)] ++ render_cst b ++ [TOp (opstr o2)]
+  build_p pa pe Eval.op_priority (render_cst a ++ [TOp (opstr o1)] ++ render_cst b ++ [TOp (opstr o2)]
                           ++ render_cst c ++ [TEnd])
   = Ok (Eval.Bin (opstr o1) (tree_of a) (Eval.Bin (opstr o2) (tree_of b) (tree_of c))).
-Proof. exact (pow_right_assoc o1 o2 a b c). Qed.
-Theorem C07_unary_vs_pow a b c :
+Proof. exact (pow_right_assoc pa pe o1 o2 a b c). Qed.
+Theorem C07_unary_vs_pow pa pe a b c :
   primary a → primary b → wfp c = true → 2 ≤ lvl c →
-  build Eval.op_priority ([TOp "-"] ++ render_cst a ++ [TOp "**"] ++ render_cst c ++ [TEnd])
+  build_p pa pe Eval.op_priority ([TOp "-"] ++ render_cst a ++ [TOp "**"] ++ render_cst c ++ [TEnd])
   = Ok (Un "-" (Eval.Bin "**" (tree_of a) (tree_of c)))
-  ∧ build Eval.op_priority (render_cst a ++ [TOp "**"] ++ [TOp "-"] ++ render_cst b ++ [TOp "**"]
+  ∧ build_p pa pe Eval.op_priority (render_cst a ++ [TOp "**"] ++ [TOp "-"] ++ render_cst b ++ [TOp "**"]
                             ++ render_cst c ++ [TEnd])
   = Ok (Eval.Bin "**" (tree_of a) (Un "-" (Eval.Bin "**" (tree_of b) (tree_of c)))).
 Proof.
   intros Ha Hb Hc Lc.
-  exact (conj (unary_vs_pow_left a c Ha Hc Lc) (unary_vs_pow_right a b c Ha Hb Hc Lc)).
+  exact (conj (unary_vs_pow_left pa pe a c Ha Hc Lc) (unary_vs_pow_right pa pe a b c Ha Hb Hc Lc)).
 Qed.
-Theorem C07_left_assoc o1 o2 a b c :
+Theorem C07_left_assoc pa pe o1 o2 a b c :
   is_pow o1 = false → is_pow o2 = false → olvl o1 = olvl o2 → o1 ≠ OJuxt → o2 ≠ OJuxt →
   wfp a = true → olvl o1 ≤ lvl a → wfp b = true → olvl o1 < lvl b → wfp c = true → olvl o1 < lvl c →
-  build Eval.op_priority (render_cst a ++ [TOp (opstr o1)] ++ render_cst b ++ [TOp (opstr o2)]
+  build_p pa pe Eval.op_priority (render_cst a ++ [TOp (opstr o1)] ++ render_cst b ++ [TOp (opstr o2)]
                           ++ render_cst c ++ [TEnd])
   = Ok (Eval.Bin (opstr o2) (Eval.Bin (opstr o1) (tree_of a) (tree_of b)) (tree_of c)).
-Proof. exact (left_assoc o1 o2 a b c). Qed.
-Theorem C07_juxt_is_mul s e :
+Proof. exact (left_assoc pa pe o1 o2 a b c). Qed.
+Theorem C07_juxt_is_mul pa pe s e :
   legal e = true →
-  ∃ t, build Eval.op_priority (render s e ++ [TEnd]) = Ok t
-       ∧ build Eval.op_priority (render s (juxt_to_mul e) ++ [TEnd]) = Ok (relabel t).
-Proof. exact (juxt_is_mul s e). Qed.
+  ∃ t, build_p pa pe Eval.op_priority (render s e ++ [TEnd]) = Ok t
+       ∧ build_p pa pe Eval.op_priority (render s (juxt_to_mul e) ++ [TEnd]) = Ok (relabel t).
+Proof. exact (juxt_is_mul pa pe s e). Qed.
 Theorem C07_juxt_evaluates_as_mul {V} (A : pyops V) leaf t :
   evaluate leaf (bin_of_tables A) (un_of_tables A) (relabel t)
   = evaluate leaf (bin_of_tables A) (un_of_tables A) t.
 Proof. exact (evaluate_relabel leaf (bin_of_tables A) (un_of_tables A) t eq_refl). Qed.
 
-(** ** F16 (known finding): juxtaposition directly before a parenthesised group has no
-    priority test; [parse_render] above is the guarded statement (guard: [legal] / the
-    [starts_atom] clause of [wfp]) *)
-Theorem C07_paren_juxt_refuted :
+(** ** F16 (repaired in /repo): as first found ([pa = true]) juxtaposition directly before a
+    parenthesised group has no priority test; [parse_render] above is the guarded statement
+    (guard: [legal] / the [starts_atom] clause of [wfp]) *)
+Theorem C07_paren_juxt_refuted pe :
   ∃ l r, wfp l = true ∧ wfp r = true ∧ olvl OJuxt ≤ lvl l ∧
-         build Eval.op_priority (render_cst (Grammar.Bin OJuxt l (Par r)) ++ [TEnd])
+         build_p true pe Eval.op_priority (render_cst (Grammar.Bin OJuxt l (Par r)) ++ [TEnd])
          ≠ Ok (tree_of (Grammar.Bin OJuxt l (Par r))).
-Proof. exact paren_juxt_refuted. Qed.
-Theorem C07_paren_juxt_witnesses :
-  build Eval.op_priority [TNum "6"; TOp "/"; TNum "2"; TOp "("; TNum "1"; TOp "+"; TNum "2"; TOp ")"; TEnd]
+Proof. exact (paren_juxt_refuted pe). Qed.
+Theorem C07_paren_juxt_witnesses pe :
+  build_p true pe Eval.op_priority [TNum "6"; TOp "/"; TNum "2"; TOp "("; TNum "1"; TOp "+"; TNum "2"; TOp ")"; TEnd]
   = Ok (Eval.Bin "/" (Leaf (TNum "6"))
           (Eval.Bin "" (Leaf (TNum "2")) (Eval.Bin "+" (Leaf (TNum "1")) (Leaf (TNum "2")))))
-  ∧ build Eval.op_priority [TNum "2"; TOp "**"; TOp "("; TNum "3"; TOp ")"; TOp "("; TNum "4"; TOp ")"; TEnd]
+  ∧ build_p true pe Eval.op_priority [TNum "2"; TOp "**"; TOp "("; TNum "3"; TOp ")"; TOp "("; TNum "4"; TOp ")"; TEnd]
   = Ok (Eval.Bin "**" (Leaf (TNum "2")) (Eval.Bin "" (Leaf (TNum "3")) (Leaf (TNum "4")))).
-Proof. exact paren_juxt_witnesses. Qed.
-
-(** the repaired "(" branch (model [build_fixed] of Model/EvalRun.v, selected by the harness when
-    the implementation no longer shows F16) groups both witnesses as Python does *)
-Example C07_paren_juxt_fixed_witnesses :
-  (match build_fixed Eval.op_priority [TNum "6"; TOp "/"; TNum "2"; TOp "("; TNum "1"; TOp "+"; TNum "2"; TOp ")"; TEnd]
-   with Ok t => show_tree t | Err _ => "" end) = "((6 / 2) (1 + 2))"
-  ∧ (match build_fixed Eval.op_priority [TNum "2"; TOp "**"; TOp "("; TNum "3"; TOp ")"; TOp "("; TNum "4"; TOp ")"; TEnd]
-     with Ok t => show_tree t | Err _ => "" end) = "((2 ** 3) 4)".
-Proof. vm_compute. split; reflexivity. Qed.
-
-(** for the REPAIRED builder (fix of F16; model [build_fixed], selected by the harness when the
-    implementation no longer shows the defect) the round trip holds without the restriction on
-    juxtaposition before a group: the only juxtapositions excluded are those whose right operand
-    starts with a sign (which read as a binary operator in Python as well) *)
-Theorem C07_parse_render_fixed s e :
+Proof. exact (paren_juxt_witnesses pe). Qed.
+(** with the repaired branch ([pa = false]) both witnesses group as Python does, and the round
+    trip holds without the restriction on juxtaposition before a group: the only juxtapositions
+    excluded are those whose right operand starts with a sign (a binary operator in Python too) *)
+Theorem C07_paren_juxt_fixed_witnesses pe :
+  build_p false pe Eval.op_priority [TNum "6"; TOp "/"; TNum "2"; TOp "("; TNum "1"; TOp "+"; TNum "2"; TOp ")"; TEnd]
+  = Ok (Eval.Bin "" (Eval.Bin "/" (Leaf (TNum "6")) (Leaf (TNum "2")))
+          (Eval.Bin "+" (Leaf (TNum "1")) (Leaf (TNum "2"))))
+  ∧ build_p false pe Eval.op_priority [TNum "2"; TOp "**"; TOp "("; TNum "3"; TOp ")"; TOp "("; TNum "4"; TOp ")"; TEnd]
+  = Ok (Eval.Bin "" (Eval.Bin "**" (Leaf (TNum "2")) (Leaf (TNum "3"))) (Leaf (TNum "4"))).
+Proof. exact (paren_juxt_fixed_witnesses pe). Qed.
+Theorem C07_parse_render_fixed pe s e :
   legal_f e = true →
-  build_fixed Eval.op_priority (render s e ++ [TEnd]) = Ok (tree_of (strip e)).
-Proof. exact (parse_render_fixed s e). Qed.
-Theorem C07_parse_render_fixed_any_parentheses e ending :
+  build_p false pe Eval.op_priority (render s e ++ [TEnd]) = Ok (tree_of (strip e)).
+Proof. exact (parse_render_fixed pe s e). Qed.
+Theorem C07_parse_render_fixed_any_parentheses pe e ending :
   wfpf e = true → ending = [TEnd] ∨ ending = [TOther; TEnd] →
-  build_fixed Eval.op_priority (render_cst e ++ ending) = Ok (tree_of e).
-Proof. exact (parse_render_cst_fixed e ending). Qed.
+  build_p false pe Eval.op_priority (render_cst e ++ ending) = Ok (tree_of e).
+Proof. exact (parse_render_cst_fixed pe e ending). Qed.
 Example C07_f16_inputs_now_in_domain :
   legal_f (Grammar.Bin OJuxt (Grammar.Bin ODiv (Num "6") (Num "2")) (Grammar.Bin OAdd (Num "1") (Num "2"))) = true
   ∧ legal (Grammar.Bin OJuxt (Grammar.Bin ODiv (Num "6") (Num "2")) (Grammar.Bin OAdd (Num "1") (Num "2"))) = false
@@ -123,10 +134,29 @@ Example C07_f16_inputs_now_in_domain :
     = [TNum "6"; TOp "/"; TNum "2"; TOp "("; TNum "1"; TOp "+"; TNum "2"; TOp ")"].
 Proof. exact f16_now_legal. Qed.
 
+(** ** F41 (repaired in /repo): as first found ([pe = true]) "**" / "^" never end a pending
+    operator, not even the higher-priority "+/-": a power after an uncertain number applies to
+    the standard deviation only *)
+Theorem C07_unc_pow_refuted pa :
+  build_p pa true Eval.op_priority [TNum "1.2"; TOp "+/-"; TNum "0.4"; TOp "**"; TNum "2"; TEnd]
+  = Ok (Eval.Bin "+/-" (Leaf (TNum "1.2")) (Eval.Bin "**" (Leaf (TNum "0.4")) (Leaf (TNum "2")))).
+Proof. exact (unc_pow_refuted pa). Qed.
+(** repaired ([pe = false]): the power binds the whole uncertain number, for every uncertain
+    number, every exponent expression and either spelling of the operator *)
+Theorem C07_unc_pow_binds_whole pa o v u x :
+  is_pow o = true → wfp x = true → 2 ≤ lvl x →
+  build_p pa false Eval.op_priority ([TNum v; TOp "+/-"; TNum u; TOp (opstr o)] ++ render_cst x ++ [TEnd])
+  = Ok (Eval.Bin (opstr o) (Eval.Bin "+/-" (Leaf (TNum v)) (Leaf (TNum u))) (tree_of x)).
+Proof. exact (unc_pow_binds_whole pa o v u x). Qed.
+Example C07_unc_pow_fixed_witness pa :
+  build_p pa false Eval.op_priority [TNum "1.2"; TOp "+/-"; TNum "0.4"; TOp "**"; TNum "2"; TEnd]
+  = Ok (Eval.Bin "**" (Eval.Bin "+/-" (Leaf (TNum "1.2")) (Leaf (TNum "0.4"))) (Leaf (TNum "2"))).
+Proof. exact (unc_pow_fixed_witness pa). Qed.
+
 (** ** Evaluation is Python's arithmetic *)
 Theorem C07_eval_is_python {V} (A : pyops V) (leaf : tok → res V) s e :
   legal e = true → caret_free e = true →
-  (t ←r build EvalTables.op_priority (render s e ++ [TEnd]);
+  (t ←r Eval.build EvalTables.op_priority (render s e ++ [TEnd]);
    evaluate leaf (bin_of_tables A) (un_of_tables A) t) = eval_expr A leaf e.
 Proof. exact (eval_is_python A leaf s e). Qed.
 (** no-execution clause, model side and static side (the dynamic side is the audit-hook
@@ -140,17 +170,17 @@ Theorem C07_eval_closed :
 Proof. exact (conj no_forbidden_call (conj no_forbidden_import (conj evaluate_applies_tie power_tie))). Qed.
 
 (** ** Unbalanced parentheses or a dangling operator never yield a value: ALL token lists *)
-Theorem C07_no_value_on_unbalanced toks t :
-  build EvalTables.op_priority toks = Ok t →
+Theorem C07_no_value_on_unbalanced pa pe toks t :
+  build_p pa pe EvalTables.op_priority toks = Ok t →
   ∃ body rest, toks = body ++ TEnd :: rest ∧ TEnd ∉ body ∧ balanced body.
-Proof. exact (no_value_on_unbalanced_gen _ toks t tbl_ok_gen). Qed.
-Theorem C07_unbalanced_no_value body :
-  TEnd ∉ body → ¬ balanced body → ∀ t, build EvalTables.op_priority (body ++ [TEnd]) ≠ Ok t.
-Proof. exact (unbalanced_no_value _ body tbl_ok_gen). Qed.
-Theorem C07_no_value_on_dangling body o trail :
+Proof. exact (no_value_on_unbalanced_gen pa pe _ toks t tbl_ok_gen). Qed.
+Theorem C07_unbalanced_no_value pa pe body :
+  TEnd ∉ body → ¬ balanced body → ∀ t, build_p pa pe EvalTables.op_priority (body ++ [TEnd]) ≠ Ok t.
+Proof. exact (unbalanced_no_value pa pe _ body tbl_ok_gen). Qed.
+Theorem C07_no_value_on_dangling pa pe body o trail :
   TEnd ∉ body → is_operator EvalTables.op_priority o = true → Forall (λ x, x = TOther) trail →
-  ∀ t, build EvalTables.op_priority (body ++ [o] ++ trail ++ [TEnd]) ≠ Ok t.
-Proof. exact (dangling_no_value _ body o trail tbl_ok_gen). Qed.
+  ∀ t, build_p pa pe EvalTables.op_priority (body ++ [o] ++ trail ++ [TEnd]) ≠ Ok t.
+Proof. exact (dangling_no_value pa pe _ body o trail tbl_ok_gen). Qed.
 
 (** ** +/- spelling variants: the concise notation N.ddd(uu) *)
 (** the standard-deviation token the tokenizer produces is [ip.fp] with exactly [ndec] decimals
@@ -166,13 +196,6 @@ Example C07_concise_examples :
   ∧ concise_text 2 "5678" = "56.78" ∧ concise_text 3 "10" = "0.010"
   ∧ concise_text 0 "4" = "4" ∧ concise_text 2 "100" = "1.00".
 Proof. exact concise_examples. Qed.
-(** F41 (known finding): [**] is exempt from the priority test, also against the higher-priority
-    [+/-]: a power after an uncertainty literal applies to the standard deviation only *)
-Example C07_unc_pow_refuted :
-  build Eval.op_priority [TNum "1.2"; TOp "+/-"; TNum "0.4"; TOp "**"; TNum "2"; TEnd]
-  = Ok (Eval.Bin "+/-" (Leaf (TNum "1.2")) (Eval.Bin "**" (Leaf (TNum "0.4")) (Leaf (TNum "2")))).
-Proof. vm_compute. reflexivity. Qed.
-
 (** ** Literals *)
 Theorem C07_literals_keep_type n s :
   (n = NFloat → is_int_lit s = true → lit_kind n s = KInt) ∧
